@@ -12,10 +12,18 @@ import (
 )
 
 func c01Scenarios() []vProdScenario {
+	// ctx-cancel scenarios: <=1 upload failure (quick; thorough 2), each of either kind (plain / request context ended)
+	cd := 1
+	if vh.Thorough() {
+		cd = 2
+	}
 	sc := []vProdScenario{
 		{Name: "1p-1b", Producers: [][]int{{1}}, PreOpen: true, FailS3: true},
 		{Name: "1p-2b", Producers: [][]int{{1, 2}}, PreOpen: true, FailS3: true},
 		{Name: "2p-explicit", Producers: [][]int{{1}, {2}}, PreOpen: true, FailS3: true},
+		// upload failures of the kind "the flushing request's own context ended" (client gone / deadline)
+		{Name: "2p-explicit-ctxcancel", Producers: [][]int{{1}, {2}}, PreOpen: true, FailS3: true, CancelOnFail: true, P: 2, D: cd},
+		{Name: "2p-maxbatches2-ctxcancel", Producers: [][]int{{1}, {2}}, MaxBatches: 2, PreOpen: true, FailS3: true, CancelOnFail: true, P: 1, D: cd},
 		{Name: "2p-maxbatches1", Producers: [][]int{{1}, {2}}, MaxBatches: 1, PreOpen: true, FailS3: true},
 		{Name: "2p-maxbatches2", Producers: [][]int{{1}, {2}}, MaxBatches: 2, PreOpen: true, FailS3: true},
 		{Name: "2p-cold", Producers: [][]int{{1}, {1}}, PreOpen: false, FailS3: true},
@@ -82,6 +90,9 @@ func c01Check(s *sched.Sched, r *vProdRun) {
 			key := "acked-not-durable"
 			if len(fails) > 0 && anyErrOther(snt.Producer) {
 				key = "acked-lost-after-foreign-failed-flush"
+				if r.cancelledFailures() > 0 {
+					key = "acked-lost-after-foreign-ctx-cancelled-flush"
+				}
 			}
 			s.Fail(key, "producer %d batch %d acked at base %d but no segment+index holds it (injected failures: %v)", snt.Producer, snt.Seq, snt.Res.Base, fails)
 			continue
